@@ -9,6 +9,7 @@ from ckl.functions import (
 )
 from ckl.values import (
     ConsoleOutput,
+    StreamInput,
     ValueInput,
     ValueOutput,
     ValueString,
@@ -21,7 +22,9 @@ class Interpreter:
         self.environment = self.base_environment.newEnv()
         self.base_environment.put("console", ValueOutput(ConsoleOutput()))
         self.base_environment.put("stdout", ValueOutput(sys.stdout))
-        self.base_environment.put("stdin", ValueInput(sys.stdin))
+        self.base_environment.put(
+            "stdin", ValueInput(StreamInput(sys.stdin))
+        )
         if not secure:
             self.base_environment.put("run", FuncRun(self))
 
